@@ -584,6 +584,10 @@ func (data *Data) DropShard(id uint64) {
 
 // CopyShardOwner copies a shard owner by ID and NodeID.
 func (data *Data) CopyShardOwner(id, nodeID uint64) {
+	// Only an existing data node can own a shard.
+	if data.DataNode(nodeID) == nil {
+		return
+	}
 	found := -1
 	for dbidx, dbi := range data.Databases {
 		for rpidx, rpi := range dbi.RetentionPolicies {
